@@ -43,7 +43,34 @@ func c06Rules() string {
 	for i, k := range c06Keys {
 		s += fmt.Sprintf("rule \"r_%s\" \"d\" salience %d\nbegin\n  same(%s.Id, who.Id)\n  gatei(who.Id)\n  same(%s.Id, who.Id)\n  %s.Out = who.Id\n  if who.Kind == 0 {\n    return %s.Id\n  }\nend\n", k, 5-i, k, k, k, k)
 	}
+	// kapi is also the name of an object the pool was constructed with (Id -7): a request may
+	// inject its own object under that name; a request that does not must see the pool's
+	// object or nothing, never the object of an earlier request
+	s += "rule \"r_kapi\" \"d\" salience 1\nbegin\n  if who.Kind == 0 {\n    return kapi.Id\n  }\nend\n"
 	return s
+}
+
+const c06ApiID = int64(-7)
+
+func c06Apis(h *poolHarness) map[string]interface{} {
+	m := h.apis()
+	m["kapi"] = &Payload{Id: c06ApiID}
+	return m
+}
+
+// c06CheckApiKey judges the result of the rule over the api-named key.
+func c06CheckApiKey(res map[string]interface{}, injected bool, id int64) string {
+	v, has := res["r_kapi"]
+	if !has {
+		return ""
+	}
+	if injected && fmt.Sprint(v) != fmt.Sprint(id) {
+		return fmt.Sprintf("injected its own object under the api name kapi but the rule over it returned %v", v)
+	}
+	if !injected && fmt.Sprint(v) != fmt.Sprint(c06ApiID) {
+		return fmt.Sprintf("did not inject kapi, but the rule over it returned %v instead of the pool's own object (%d): data injected by another request under the name of a pool api is visible", v, c06ApiID)
+	}
+	return ""
 }
 
 var c06Methods = []string{"Execute", "ExecuteConcurrent", "ExecuteMixModel", "ExecuteInverseMixModel", "ExecuteRulesWithMultiInputWithSpecifiedEM",
@@ -90,6 +117,9 @@ func init() {
 				if len(keys) == 0 {
 					keys = []string{c06Keys[uni(t, fmt.Sprintf("onekey%d", i), 0, 2)]}
 				}
+				if pct(t, fmt.Sprintf("key%d_kapi", i), 30) {
+					keys = append(keys, "kapi")
+				}
 				c.Ops = append(c.Ops, C06Op{Kind: "start", Keys: keys, Method: uni(t, fmt.Sprintf("m%d", i), 0, len(c06Methods)-1), Silent: pct(t, fmt.Sprintf("silent%d", i), 25), StopOnErr: pct(t, fmt.Sprintf("stoponerr%d", i), 30)})
 				out++
 			}
@@ -99,14 +129,14 @@ func init() {
 			c := ci.(*C06Case)
 			h := newPoolHarness()
 			h.max = int(c.PoolMax)
-			p, err := engine.NewGenginePool(c.PoolMin, c.PoolMax, c.EM, c06Rules(), h.apis())
+			p, err := engine.NewGenginePool(c.PoolMin, c.PoolMax, c.EM, c06Rules(), c06Apis(h))
 			if err != nil {
 				x.Violation("setup", "NewGenginePool: %v", err)
 				return
 			}
 			h.pool = p
 			defer h.gates.ReleaseAll()
-			names := []string{"r_who", "r_ka", "r_kb", "r_kc"}
+			names := []string{"r_who", "r_ka", "r_kb", "r_kc", "r_kapi"}
 			if c.Stress {
 				x.Class("stress-variant")
 				x.NonTrivial()
@@ -154,6 +184,13 @@ func init() {
 				}
 				if v, has := r.res.Map["r_who"]; has && fmt.Sprint(v) != fmt.Sprint(r.id) {
 					x.Violation("foreign-result:"+m.Shape, "step %d: request %d (%s) got identity %v", step, r.id, r.call.Method, v)
+					return false
+				}
+				if injected["kapi"] {
+					x.Class("request-injects-under-the-name-of-a-pool-api")
+				}
+				if msg := c06CheckApiKey(r.res.Map, injected["kapi"], r.id); msg != "" {
+					x.Violation("leak:api-name", "step %d: request %d (%s, keys %v) %s", step, r.id, r.call.Method, r.keys, msg)
 					return false
 				}
 				for k, pl := range r.payloads {
@@ -275,6 +312,9 @@ func c06Stress(x *Ctx, c *C06Case, h *poolHarness, names []string) {
 				if len(keys) == 0 {
 					keys = []string{c06Keys[mix%3]}
 				}
+				if (mix>>3)&3 == 1 {
+					keys = append(keys, "kapi")
+				}
 				data := map[string]interface{}{"who": &Payload{Id: id}}
 				pls := map[string]*Payload{}
 				for _, key := range keys {
@@ -304,6 +344,10 @@ func c06Stress(x *Ctx, c *C06Case, h *poolHarness, names []string) {
 				}
 				if v, has := res.Map["r_who"]; has && fmt.Sprint(v) != fmt.Sprint(id) {
 					errs <- outcome{fmt.Sprintf("request %d (%s) got identity %v", id, call.Method, v)}
+					return
+				}
+				if msg := c06CheckApiKey(res.Map, inj["kapi"], id); msg != "" {
+					errs <- outcome{fmt.Sprintf("request %d (%s, keys %v) %s", id, call.Method, keys, msg)}
 					return
 				}
 				for key, pl := range pls {
